@@ -87,3 +87,15 @@ Definition check (c : case) : list Z :=
 
 Definition run (cases : list case) : list (Z * Z) :=
   flat_map (fun c => map (fun code => (cid c, code)) (check c)) cases.
+
+(* liveness of the comparator (a deliberately wrong observation must be flagged, a right one not):
+   three files of 1, 3, 2 samples, 2 channels, reader[1] *)
+Example corr_live_wrong :
+  check {| cid := 0; cin := InGet [1; 3; 2] 2 1 (IInt 1) None; cobs := ObsRows 1 [[0; 1]] |} = [1; 21].
+Proof. vm_compute. reflexivity. Qed.
+Example corr_live_right :
+  check {| cid := 0; cin := InGet [1; 3; 2] 2 1 (IInt 1) None; cobs := ObsRows 1 [[2; 3]] |} = [].
+Proof. vm_compute. reflexivity. Qed.
+Example corr_live_regime :
+  check {| cid := 0; cin := InGet [1; 3; 2] 2 1 (ISlice (Some 1) (Some 0) None) None; cobs := ObsRows 1 [] |} = [3].
+Proof. vm_compute. reflexivity. Qed.
